@@ -8,10 +8,10 @@ class C17(Spec):
     lean_deps = ("C16",)
     required_theorems = (
         "C17.check_implies_chained", "C17.group_binding", "C17.tamper_changes_signbytes", "C17.fee_rules",
-        "C17.fee_nonzero_rejected", "C17.fee_too_low_rejected", "C17.created_group_checks_partial",
-        "C17.group_checkSign_all", "C17.realFee_eq",
+        "C17.fee_nonzero_rejected", "C17.fee_too_low_rejected", "C17.created_group_checks",
+        "C17.created_group_chained", "C17.signed_group_checkSign", "C17.group_checkSign_all", "C17.realFee_eq",
     )
-    partial = ("C17.created_group_checks_partial",)
+    partial = ()
     refuted = ()
     level_text = (
         "Lean theorems about the model of CreateTxGroup / Transactions.CheckWithFork / CheckSign (shared transaction "
@@ -19,15 +19,15 @@ class C17(Spec):
         "signatures, or the hash function collides (induction along the next chain); hence any reorder/drop/add/"
         "substitute/field change that still passes Check changes the header and therefore the bytes covered by every "
         "member signature; an accepted group has zero fee on non-head members and a head fee >= the sum of required "
-        "fees, and violations are answered with ErrTxGroupFeeNotZero / ErrTxFeeTooLow; CreateTxGroup's output is "
-        "correctly chained for every input. Tied to /repo by a byte-exact differential run of CreateTxGroup, "
+        "fees, and violations are answered with ErrTxGroupFeeNotZero / ErrTxFeeTooLow; a group created by "
+        "CreateTxGroup and signed by its members passes Check at the creation fee rate (stated side conditions: "
+        "signature field <= 300 bytes, no stale Next on the last input, <= 20 members, fees fit int64) and CheckSign "
+        "for every scheme with verify(sign)=true enabled at the height. Tied to /repo by a byte-exact differential run of CreateTxGroup, "
         "RebuiltGroup, Tx(), Check/CheckWithFork (error kind), CheckSign on generated groups of 2..20 members "
         "(para/main mixes, expiry kinds, fee-step sizes) signed with real keys, with every structural and field "
         "mutant (also re-chained by RebuiltGroup) required to fail Check or CheckSign on the real code.")
     level_note = (
-        "Partial: 'a created and signed group passes Check' is proved for the chain/count/fee-zero part; the fee-sum "
-        "inequality (creation-time size estimate dominates the signed size when each signature adds <= 300 bytes) is "
-        "checked on every generated group by the correspondence run, not proved. Unforgeability of the signature "
+        "Unforgeability of the signature "
         "schemes is outside (as C16): the theorem shows the signed bytes change, the run shows the real drivers then "
         "reject. int64 fee arithmetic is modelled without wrap-around (fee rates <= 2^40 in the runs). Decoding of "
         "the group from Transaction.Header (GetTxGroup) is checked by round trip on the code, not modelled.")
